@@ -369,7 +369,12 @@ class SimpleCorrelator(AbstractCorrelator):
                 if key in self._segment_status_store:
                     segment_status = self._segment_status_store[str(ref_num)]
                 else:
-                    segment_status = SegmentStatus({}, smpp_message)
+                    # All segments are marked as being sent from the start, otherwise a response
+                    # processed before the last segment is stored would look like the final one
+                    segment_status = SegmentStatus(
+                        {str(seq): STATUS_SENDING for seq in range(1, total_segments + 1)},
+                        smpp_message,
+                    )
                     self._segment_status_store[key] = segment_status
                 segment_status.status[str(seq_num)] = STATUS_SENDING
 
